@@ -10,7 +10,7 @@ def run() -> int:
     for m in mods:
         tlc.sany(m)
     print(f"setup: {len(mods)} modules parsed")
-    res = tlc.run_tlc("MC_Router", "MC_Router_asis.cfg", timeout=300)
+    res = tlc.run_tlc("MC_Router", "MC_Router_asis.cfg", timeout=1800)
     if res.violated != "P_FanOut":
         raise tlc.MachineryError("smoke test failed: " + res.stdout[-2000:])
     print("setup: TLC smoke test ok")
